@@ -16,27 +16,28 @@ type opSpec struct {
 	fn     string
 	preset map[string]string
 	kind   string
+	events map[string]string // "recv.fn" -> event kind: callees summarised instead of inlined
 }
 
 var opTable = []opSpec{
-	{"Set", "cache", "set", map[string]string{"onlyIfAbsent": "false"}, "set"},
-	{"SetIfAbsent", "cache", "set", map[string]string{"onlyIfAbsent": "true"}, "setIfAbsent"},
-	{"Compute", "cache", "Compute", nil, "compute"},
-	{"ComputeIfAbsent", "cache", "ComputeIfAbsent", nil, "computeIfAbsent"},
-	{"ComputeIfPresent", "cache", "ComputeIfPresent", nil, "computeIfPresent"},
-	{"Invalidate", "cache", "Invalidate", nil, "invalidate"},
-	{"GetIfPresent", "cache", "GetIfPresent", nil, "get"},
-	{"GetEntry", "cache", "GetEntry", nil, "getEntry"},
-	{"GetEntryQuietly", "cache", "GetEntryQuietly", nil, "getQuiet"},
-	{"SetExpiresAfter", "cache", "SetExpiresAfter", nil, "setExp"},
-	{"SetRefreshableAfter", "cache", "SetRefreshableAfter", nil, "setRefr"},
+	{"Set", "cache", "set", map[string]string{"onlyIfAbsent": "false"}, "set", nil},
+	{"SetIfAbsent", "cache", "set", map[string]string{"onlyIfAbsent": "true"}, "setIfAbsent", nil},
+	{"Compute", "cache", "Compute", nil, "compute", nil},
+	{"ComputeIfAbsent", "cache", "ComputeIfAbsent", nil, "computeIfAbsent", nil},
+	{"ComputeIfPresent", "cache", "ComputeIfPresent", nil, "computeIfPresent", nil},
+	{"Invalidate", "cache", "Invalidate", nil, "invalidate", nil},
+	{"GetIfPresent", "cache", "GetIfPresent", nil, "get", nil},
+	{"GetEntry", "cache", "GetEntry", nil, "getEntry", nil},
+	{"GetEntryQuietly", "cache", "GetEntryQuietly", nil, "getQuiet", nil},
+	{"SetExpiresAfter", "cache", "SetExpiresAfter", nil, "setExp", nil},
+	{"SetRefreshableAfter", "cache", "SetRefreshableAfter", nil, "setRefr", nil},
 }
 
 // internal mechanisms analysed with the same engine
 var mechTable = []opSpec{
-	{"afterDeleteCall", "cache", "afterDeleteCall", nil, "loadInstall"},
-	{"evictNode", "cache", "evictNode", nil, "evict"},
-	{"deleteNode", "cache", "deleteNode", nil, "deleteNode"},
+	{"afterDeleteCall", "cache", "afterDeleteCall", nil, "loadInstall", nil},
+	{"evictNode", "cache", "evictNode", nil, "evict", nil},
+	{"deleteNode", "cache", "deleteNode", nil, "deleteNode", nil},
 }
 
 type opRun struct {
@@ -55,6 +56,10 @@ func opKey(s opSpec) string {
 		ks = append(ks, k+"="+v)
 	}
 	sort.Strings(ks)
+	for k, v := range s.events {
+		ks = append(ks, "ev:"+k+"="+v)
+	}
+	sort.Strings(ks)
 	return s.recv + "." + s.fn + "?" + strings.Join(ks, "&")
 }
 
@@ -68,6 +73,14 @@ func (cx *Ctx) runOp(rule string, spec opSpec) *opRun {
 		return nil
 	}
 	ps := newPathSum(cx)
+	for k, kind := range spec.events {
+		parts := strings.Split(k, ".")
+		if f := cx.P.Func("", parts[0], parts[1]); f != nil {
+			ps.asEvents[origin(f)] = kind
+		} else {
+			cx.R.Undecided(rule, k, "anchor", "-", "summarised callee "+k+" does not resolve")
+		}
+	}
 	outs := ps.Run(fn, spec.preset)
 	r := &opRun{spec: spec, fn: fn, outs: outs, ps: ps}
 	r.stats = fmt.Sprintf("%s: %d paths (%d steps, %d predicate forks, %d silent forks)", spec.name, len(outs), ps.steps, ps.forks, ps.silent)
